@@ -30,6 +30,8 @@ pub async fn process_uplink_packet(
     client_addr: Option<SocketAddr>,
     data: &[u8],
 ) -> Result<SrtlaIncoming> {
+    #[cfg(feature = "verif-hooks")]
+    let local_listener = &crate::net::verif_hooks::ClientSock::wrap(local_listener);
     let mut incoming = SrtlaIncoming {
         read_any: true,
         ..Default::default()
